@@ -1,17 +1,16 @@
-# per-property configuration of bin/check
+# per-property configuration of bin/check: one file per property under bin/propdefs/
+import os, glob, importlib.util
+
 ALLOWED_AXIOMS = [
     # standard-library axioms that may appear in Print Assumptions (none is expected;
     # listed here by name if a library brings one in)
 ]
 
-PROPS = {
-    "C04": {
-        "groups": ["escape"],
-        "rule": "escape/unescape/streaming-reader/writer/table-parser cases: every byte value x both built-in tables, "
-                "all splits of a short escaped stream, random well-formed and ill-formed tables with payloads dense in "
-                "leader/source/code bytes, random splits and caller buffer sizes; non-trivial = escaping changes the "
-                "length, a chunk ends in the leader byte, a non-empty table is used, or a table is parsed; distinct = distinct input line",
-        "trusted": ["modelled, not verified: JSON decoding and ISO-8859-1 encoding of the announced table (the model starts at the decoded array of strings); zstd in front of the escaper is an arbitrary byte function"],
-        "assumptions": ["payload bytes are < 256", "chunks handed to the streaming reader are non-empty and caller buffers have length >= 1"],
-    },
-}
+PROPS, TEXT = {}, {}
+for _f in sorted(glob.glob(os.path.join(os.path.dirname(os.path.abspath(__file__)), "propdefs", "C*.py"))):
+    _spec = importlib.util.spec_from_file_location("propdef_" + os.path.basename(_f)[:-3], _f)
+    _m = importlib.util.module_from_spec(_spec)
+    _spec.loader.exec_module(_m)
+    _id = os.path.basename(_f)[:-3]
+    PROPS[_id] = _m.PROP
+    TEXT[_id] = _m.TEXT
